@@ -636,3 +636,255 @@ Qed.
 Lemma header_words_builds : forall nocache ngc,
   header_words (cfg_build false nocache ngc) = 3%nat /\ header_words (cfg_build true nocache ngc) = 1%nat.
 Proof. intros. rewrite !header_words_char. split; reflexivity. Qed.
+
+(* ------------------------------------------------------------------ Part D: collector transparency *)
+Inductive reach (h : heap) (rs : roots) : addr -> Prop :=
+| reach_root : forall r a, nth_error rs r = Some (Some a) -> reach h rs a
+| reach_field : forall a o i b, reach h rs a -> h a = Some o -> nth_error (fields o) i = Some b -> reach h rs b.
+
+(* what C01 establishes for the real collector: a collection leaves every reachable object as it is *)
+Definition collector_safe (collect : nat -> heap -> roots -> heap) : Prop :=
+  forall n h rs a, reach h rs a -> collect n h rs a = h a.
+
+(* h1 (heap of the run with collections) agrees with h2 (heap of the run without) on what h2 can reach *)
+Definition agree (h1 h2 : heap) (rs : roots) : Prop := forall a, reach h2 rs a -> h1 a = h2 a.
+
+Lemma reach_transfer : forall h1 h2 rs a, agree h1 h2 rs -> reach h2 rs a -> reach h1 rs a.
+Proof.
+  intros h1 h2 rs a Hag H. induction H as [r a Hr | a o i b Ha IH Ho Hi].
+  - eapply reach_root; eassumption.
+  - eapply reach_field; [exact IH | | exact Hi]. rewrite (Hag a Ha). exact Ho.
+Qed.
+
+Lemma deref_from_agree : forall h1 h2 rs is a, agree h1 h2 rs -> reach h2 rs a ->
+  deref_from h1 a is = deref_from h2 a is.
+Proof.
+  induction is as [| i r IH]; intros a Hag Ha; simpl; [reflexivity |].
+  rewrite (Hag a Ha). destruct (h2 a) as [o |] eqn:Ho; [| reflexivity].
+  destruct (nth_error (fields o) i) as [b |] eqn:Hi; [| reflexivity].
+  apply IH; [exact Hag | eapply reach_field; eassumption].
+Qed.
+
+Lemma deref_agree : forall h1 h2 rs p, agree h1 h2 rs -> deref h1 rs p = deref h2 rs p.
+Proof.
+  intros h1 h2 rs [r is] Hag. unfold deref; simpl.
+  destruct (nth_error rs r) as [[a |] |] eqn:Hr; try reflexivity.
+  apply (deref_from_agree h1 h2 rs); [exact Hag | eapply reach_root; exact Hr].
+Qed.
+
+Lemma deref_from_reach : forall h rs is a b, reach h rs a -> deref_from h a is = Some b -> reach h rs b.
+Proof.
+  induction is as [| i r IH]; intros a b Ha H; simpl in H.
+  - inversion H; subst; exact Ha.
+  - destruct (h a) as [o |] eqn:Ho; [| discriminate].
+    destruct (nth_error (fields o) i) as [c |] eqn:Hi; [| discriminate].
+    eapply IH; [| exact H]. eapply reach_field; eassumption.
+Qed.
+
+Lemma deref_reach : forall h rs p b, deref h rs p = Some b -> reach h rs b.
+Proof.
+  intros h rs [r is] b H. unfold deref in H; simpl in H.
+  destruct (nth_error rs r) as [[a |] |] eqn:Hr; try discriminate.
+  eapply deref_from_reach; [eapply reach_root; exact Hr | exact H].
+Qed.
+
+Lemma deref_all_agree : forall h1 h2 rs ps, agree h1 h2 rs -> deref_all h1 rs ps = deref_all h2 rs ps.
+Proof.
+  induction ps as [| p r IH]; intros Hag; simpl; [reflexivity |].
+  rewrite (deref_agree h1 h2 rs p Hag), (IH Hag). reflexivity.
+Qed.
+
+Lemma deref_all_reach : forall h rs ps l, deref_all h rs ps = Some l -> forall b, In b l -> reach h rs b.
+Proof.
+  induction ps as [| p r IH]; intros l H b Hb; simpl in H.
+  - inversion H; subst. contradiction.
+  - destruct (deref h rs p) as [a |] eqn:Hp; [| discriminate].
+    destruct (deref_all h rs r) as [l' |] eqn:Hr; [| discriminate].
+    inversion H; subst. destruct Hb as [Hb | Hb].
+    + subst. eapply deref_reach; exact Hp.
+    + eapply IH; [reflexivity | exact Hb].
+Qed.
+
+Lemma nth_error_set_root : forall rs n v r x, nth_error (set_root rs n v) r = Some x ->
+  (r = n /\ x = v) \/ nth_error rs r = Some x.
+Proof.
+  induction rs as [| y t IH]; intros n v r x H; simpl in H.
+  - destruct r; discriminate.
+  - destruct n; destruct r; simpl in *.
+    + inversion H; subst. left; split; reflexivity.
+    + right; exact H.
+    + right; exact H.
+    + destruct (IH n v r x H) as [[E1 E2] | E]; [left; split; congruence | right; exact E].
+Qed.
+
+Lemma nth_error_set_field : forall l n v j c, nth_error (set_field l n v) j = Some c ->
+  c = v \/ nth_error l j = Some c.
+Proof.
+  induction l as [| y t IH]; intros n v j c H; simpl in H.
+  - destruct j; discriminate.
+  - destruct n; destruct j; simpl in *.
+    + inversion H; subst. left; reflexivity.
+    + right; exact H.
+    + right; exact H.
+    + eapply IH; exact H.
+Qed.
+
+(* reachability after each kind of update is included in: the updated address, or what was reachable *)
+Lemma reach_upd : forall h rs rs' a o,
+  (forall r x, nth_error rs' r = Some (Some x) -> x = a \/ reach h rs x) ->
+  (forall i b, nth_error (fields o) i = Some b -> reach h rs b) ->
+  forall x, reach (upd h a o) rs' x -> x = a \/ reach h rs x.
+Proof.
+  intros h rs rs' a o Hroots Hfields x H.
+  induction H as [r x Hr | x0 o0 i b Hx0 IH Ho0 Hi].
+  - eapply Hroots; exact Hr.
+  - unfold upd in Ho0. destruct (Nat.eqb x0 a) eqn:E.
+    + inversion Ho0; subst o0. right. eapply Hfields; exact Hi.
+    + apply Nat.eqb_neq in E. destruct IH as [IH | IH]; [contradiction |].
+      right. eapply reach_field; eassumption.
+Qed.
+
+Lemma agree_upd : forall h1 h2 rs rs' a o,
+  agree h1 h2 rs ->
+  (forall x, reach (upd h2 a o) rs' x -> x = a \/ reach h2 rs x) ->
+  agree (upd h1 a o) (upd h2 a o) rs'.
+Proof.
+  intros h1 h2 rs rs' a o Hag Hsub x Hx. unfold upd.
+  destruct (Nat.eqb x a) eqn:E; [reflexivity |].
+  apply Nat.eqb_neq in E. destruct (Hsub x Hx) as [F | F]; [contradiction | apply Hag; exact F].
+Qed.
+
+Lemma reach_roots_only : forall h rs rs',
+  (forall r x, nth_error rs' r = Some (Some x) -> reach h rs x) ->
+  forall x, reach h rs' x -> reach h rs x.
+Proof.
+  intros h rs rs' Hroots x H. induction H as [r x Hr | x0 o0 i b Hx0 IH Ho0 Hi].
+  - eapply Hroots; exact Hr.
+  - eapply reach_field; eassumption.
+Qed.
+
+Definition related (s1 s2 : gstate) : Prop :=
+  agree (gheap s1) (gheap s2) (groots s2) /\ groots s1 = groots s2 /\ gnext s1 = gnext s2.
+
+Lemma gstep_related : forall o s1 s2, related s1 s2 ->
+  snd (gstep s1 o) = snd (gstep s2 o) /\ related (fst (gstep s1 o)) (fst (gstep s2 o)).
+Proof.
+  intros o [h1 rs1 n1] [h2 rs n] (Hag & Hr & Hn). simpl in *. subst rs1 n1.
+  destruct o as [dst v fs | p | p v | p i q | dst p | dst]; simpl.
+  - (* GAlloc *)
+    rewrite (deref_all_agree h1 h2 rs fs Hag).
+    destruct (deref_all h2 rs fs) as [l |] eqn:Hl; simpl.
+    + split; [reflexivity |]. repeat split; simpl.
+      eapply agree_upd; [exact Hag |].
+      apply reach_upd.
+      * intros r x Hx. apply nth_error_set_root in Hx. destruct Hx as [[_ E] | E].
+        -- inversion E. left; reflexivity.
+        -- right. eapply reach_root; exact E.
+      * simpl. intros i b Hb. eapply deref_all_reach; [exact Hl | eapply nth_error_In; exact Hb].
+    + split; [reflexivity |]. repeat split; assumption.
+  - (* GRead *)
+    rewrite (deref_agree h1 h2 rs p Hag).
+    destruct (deref h2 rs p) as [a |] eqn:Hp; simpl.
+    + rewrite (Hag a (deref_reach h2 rs p a Hp)).
+      destruct (h2 a); simpl; (split; [reflexivity | repeat split; assumption]).
+    + split; [reflexivity | repeat split; assumption].
+  - (* GWrite *)
+    rewrite (deref_agree h1 h2 rs p Hag).
+    destruct (deref h2 rs p) as [a |] eqn:Hp; simpl.
+    + pose proof (deref_reach h2 rs p a Hp) as Ra. rewrite (Hag a Ra).
+      destruct (h2 a) as [ob |] eqn:Hob; simpl.
+      * split; [reflexivity |]. repeat split; simpl.
+        eapply agree_upd; [exact Hag |]. apply reach_upd.
+        -- intros r x Hx. right. eapply reach_root; exact Hx.
+        -- simpl. intros i b Hb. eapply (reach_field h2 rs a ob); eassumption.
+      * split; [reflexivity | repeat split; assumption].
+    + split; [reflexivity | repeat split; assumption].
+  - (* GSetField *)
+    rewrite (deref_agree h1 h2 rs p Hag), (deref_agree h1 h2 rs q Hag).
+    destruct (deref h2 rs p) as [a |] eqn:Hp; simpl; [| split; [reflexivity | repeat split; assumption]].
+    destruct (deref h2 rs q) as [b |] eqn:Hq; simpl; [| split; [reflexivity | repeat split; assumption]].
+    pose proof (deref_reach h2 rs p a Hp) as Ra. pose proof (deref_reach h2 rs q b Hq) as Rb.
+    rewrite (Hag a Ra). destruct (h2 a) as [ob |] eqn:Hob; simpl.
+    + split; [reflexivity |]. repeat split; simpl.
+      eapply agree_upd; [exact Hag |]. apply reach_upd.
+      * intros r x Hx. right. eapply reach_root; exact Hx.
+      * simpl. intros j c Hc. apply nth_error_set_field in Hc. destruct Hc as [E | E].
+        -- subst; exact Rb.
+        -- eapply (reach_field h2 rs a ob); eassumption.
+    + split; [reflexivity | repeat split; assumption].
+  - (* GMove *)
+    rewrite (deref_agree h1 h2 rs p Hag).
+    destruct (deref h2 rs p) as [a |] eqn:Hp; simpl; [| split; [reflexivity | repeat split; assumption]].
+    split; [reflexivity |]. repeat split; simpl.
+    intros x Hx. apply Hag. eapply reach_roots_only; [| exact Hx].
+    intros r y Hy. apply nth_error_set_root in Hy. destruct Hy as [[_ E] | E].
+    + inversion E; subst. eapply deref_reach; exact Hp.
+    + eapply reach_root; exact E.
+  - (* GDrop *)
+    split; [reflexivity |]. repeat split; simpl.
+    intros x Hx. apply Hag. eapply reach_roots_only; [| exact Hx].
+    intros r y Hy. apply nth_error_set_root in Hy. destruct Hy as [[_ E] | E]; [discriminate |].
+    eapply reach_root; exact E.
+Qed.
+
+Lemma collect_related : forall collect n s1 s2, collector_safe collect -> related s1 s2 ->
+  related (mkG (collect n (gheap s1) (groots s1)) (groots s1) (gnext s1)) s2.
+Proof.
+  intros collect n [h1 rs1 n1] [h2 rs n2] Hsafe (Hag & Hr & Hn). simpl in *. subst rs1 n1.
+  repeat split; simpl. intros a Ha.
+  rewrite (Hsafe n h1 rs a (reach_transfer h1 h2 rs a Hag Ha)). apply Hag; exact Ha.
+Qed.
+
+Lemma related_refl : forall s, related s s.
+Proof. intros s. repeat split. Qed.
+
+Lemma grun_related : forall collect ops n1 n2 s1 s2 gc1,
+  collector_safe collect -> related s1 s2 ->
+  snd (grun gc1 collect n1 ops s1) = snd (grun false collect n2 ops s2) /\
+  related (fst (grun gc1 collect n1 ops s1)) (fst (grun false collect n2 ops s2)).
+Proof.
+  induction ops as [| o r IH]; intros n1 n2 s1 s2 gc1 Hsafe Hrel; simpl.
+  - split; [reflexivity | exact Hrel].
+  - set (s0 := if gc1 then mkG (collect n1 (gheap s1) (groots s1)) (groots s1) (gnext s1) else s1).
+    assert (Hrel0 : related s0 s2).
+    { unfold s0. destruct gc1; [apply collect_related; assumption | exact Hrel]. }
+    destruct (gstep_related o s0 s2 Hrel0) as [Ho Hs].
+    destruct (gstep s0 o) as [s1' o1]. destruct (gstep s2 o) as [s2' o2]. simpl in Ho, Hs. subst o2.
+    destruct (IH (S n1) (S n2) s1' s2' gc1 Hsafe Hs) as [A B].
+    destruct (grun gc1 collect (S n1) r s1') as [s1'' outs1].
+    destruct (grun false collect (S n2) r s2') as [s2'' outs2]. simpl in *.
+    split; [congruence | exact B].
+Qed.
+
+(* collector transparency: with a collector that leaves reachable objects alone, a program that reaches
+   objects only through its registers observes the same values whether the collector is compiled in or
+   not, whatever the collection schedule *)
+Theorem gc_transparent : forall collect ops s gc,
+  collector_safe collect ->
+  snd (grun gc collect 0 ops s) = snd (grun false collect 0 ops s).
+Proof.
+  intros collect ops s gc Hsafe.
+  destruct (grun_related collect ops 0 0 s s gc Hsafe (related_refl s)) as [A _]. exact A.
+Qed.
+
+Theorem gc_config_independent : forall collect ops s c1 c2,
+  collector_safe collect ->
+  snd (grun_cfg c1 collect 0%nat ops s) = snd (grun_cfg c2 collect 0%nat ops s).
+Proof.
+  intros collect ops s c1 c2 Hsafe. unfold grun_cfg.
+  rewrite (gc_transparent collect ops s (gc c1) Hsafe), (gc_transparent collect ops s (gc c2) Hsafe). reflexivity.
+Qed.
+
+Definition g_empty : gstate := mkG (fun _ => None) [None; None; None] 0%nat.
+
+Lemma identity_collector_safe : collector_safe (fun _ h _ => h).
+Proof. intros n h rs a _. reflexivity. Qed.
+
+(* a collector that frees a reachable object is visible: the safety hypothesis cannot be dropped *)
+Lemma unsafe_collector_differs :
+  exists collect ops,
+    snd (grun true collect 0%nat ops g_empty) <> snd (grun false collect 0%nat ops g_empty).
+Proof.
+  exists (fun _ _ _ => fun _ => None), [GAlloc 0%nat 5%Z []; GRead (0%nat, [])].
+  vm_compute. discriminate.
+Qed.
